@@ -53,9 +53,12 @@ def parse_sanitizer_log(paths):
                         tool, kind = 'ubsan', re.sub(r'[^a-z]+', '-', m.group(1).lower())[:40].strip('-')
             if not tool:
                 continue
-            frames = re.findall(r'#\d+ 0x[0-9a-f]+ in (\S+)', b)
+            body = b
+            if tool == 'tsan':
+                body = re.split(r'\n\s+(?:Location is|Thread T\d+ \(|Mutex M\d+|As if synchronized)', b)[0]
+            frames = re.findall(r'#\d+ 0x[0-9a-f]+ in (\S+)', body)
             if not frames:
-                frames = re.findall(r'#\d+ (\S+) ', b)
+                frames = re.findall(r'#\d+ (\S+) ', body)
             freed = []
             fm = re.search(r'freed by thread.*?\n((?:\s+#\d+.*\n)+)', b)
             if fm:
